@@ -43,7 +43,7 @@ PROPS = {
     "C10": {
         "replay_repeat": 20,
         "quick": {"shards": 8, "timeout_s": 900, "floors": {"distinct_nontrivial": 150, "gated_executions": 1000, "delayed_executions": 500, "order_signatures": 50, "scenarios_with_class_missing_errors": 20}},
-        "thorough": {"shards": 16, "timeout_s": 3400, "floors": {"distinct_nontrivial": 8000}, "engines": ["miri:c10", "tsan:c10"]},
+        "thorough": {"shards": 16, "timeout_s": 3400, "floors": {"distinct_nontrivial": 5000}, "engines": ["miri:c10", "tsan:c10"]},
     },
     "C01": {
         "quick": {"shards": 8, "timeout_s": 900, "floors": {"distinct_nontrivial": 300, "calls": 2000, "continuations": 3000, "new_tracks": 500, "empty_calls": 20, "stored_tracks_cross_checked": 3000}},
